@@ -42,7 +42,7 @@ STREAM(mem_pairs) {
       if (m >= 4) { auto* p = new_reim4_to_cplx_precomp(m); delete_reim4_to_cplx_precomp(p); }
       { auto* p = new_reim4_fftvec_mul_precomp(m); delete_reim4_fftvec_mul_precomp(p); }
       { auto* p = new_reim4_fftvec_addmul_precomp(m); delete_reim4_fftvec_addmul_precomp(p); }
-      if (mask == 0) {
+      {  // portable C constructors: independent of the dispatch mask
         { auto* p = q120_new_ntt_bb_precomp(m); q120_del_ntt_bb_precomp(p); }
         { auto* p = q120_new_intt_bb_precomp(m); q120_del_intt_bb_precomp(p); }
       }
@@ -54,7 +54,8 @@ STREAM(mem_pairs) {
         { auto* p = new_svp_ppol(mod); delete_svp_ppol(p); }
         { auto* p = new_vmp_pmat(mod, 2, 3); delete_vmp_pmat(p); }
         delete_module_info(mod);
-        if (mask == 0) { MODULE* mq = new_module_info(nn, NTT120); delete_module_info(mq); }
+        // NTT120: with AVX2 masked off the module installs no kernels, but creation and destruction must still pair up
+        { MODULE* mq = new_module_info(nn, NTT120); delete_module_info(mq); }
       }
       nopcase(out, "pairs_dim");
     }
